@@ -7,9 +7,10 @@
 --    the 12x12 and the 8x8 variant); the tables are circulant; `INV_MDS * MDS = I (mod p)`; the
 --    96-bit reduction tail is correct modulo p, returns a 64-bit word, can return a NON-canonical
 --    word (witness), and `add_constants` brings any 64-bit word back into [0, p).
---    NOT proved: the plumbing of `mds_multiply` itself (`mds_multiply_glue`, a `def : Prop`).
---    Under that hypothesis, one full round of Rp64_256 / RpJive64_256 on raw words denotes the
---    reference round on residues (`round_*_denotes_reference_partial`).
+--    The plumbing of `mds_multiply` itself (`mds_multiply_glue`) is proved too, by rewriting with
+--    one proof-carrying equation per generated step (no definitional unfolding in the kernel).
+--  * (1)+(2) composed: one round, and `apply_permutation` (seven rounds with the table constants), of
+--    all three instances on valid raw words denote the reference round / permutation on residues.
 --  * (2) S-boxes (on top of C07's `val` / `Inv`): `exp7` / `cube` denote `x^7` / `x^3`, the inverse
 --    S-box chains denote `x^INV_ALPHA`, `alpha * inv_alpha = 1 (mod p - 1)`, and by Fermat the two
 --    S-boxes invert each other on every residue, zero included, for all three instances.
@@ -28,6 +29,7 @@ import WinterProofs.Lemmas.C11Sbox
 import WinterProofs.Lemmas.C11MergeInt
 import WinterProofs.Lemmas.C11Round12
 import WinterProofs.Lemmas.C11Round8
+import WinterProofs.Lemmas.C11Round62
 
 namespace WinterProofs.C11
 open Gen Model Model.Rescue
@@ -111,9 +113,11 @@ theorem round_constants_small :
     Misc.arkSmall Gen.Rp64Jive.ARK1 = true ∧ Misc.arkSmall Gen.Rp64Jive.ARK2 = true :=
   ⟨Misc.rp64_ark_small.1, Misc.rp64_ark_small.2, Misc.jive_ark_small.1, Misc.jive_ark_small.2⟩
 
-/-- FULL statement, NOT proved (see `Mds12.mm_eq_tail_statement`): `mds_multiply` is the tail
-    applied to the two frequency-domain products of the limbs.  Tied by correspondence only. -/
+/-- `mds_multiply` is the reduction tail applied, component by component, to the two
+    frequency-domain products of the low and the high 32-bit limbs (both variants) -/
 def mds_multiply_glue : Prop := Mds12.mm_eq_tail_statement ∧ Mds8.mm_eq_tail_statement
+
+theorem mds_multiply_is_tail_of_freq : mds_multiply_glue := ⟨Mds12.mm_eq_tail, Mds8.mm_eq_tail⟩
 
 /-! ## (2) S-boxes -/
 
@@ -168,47 +172,72 @@ example : F62Z.Inv 0 ∧ F62Z.Inv 4611624995532046337 ∧ F62Z.Inv 9223249991064
 /-- Rp64_256: one round on valid raw words, with round constants whose raw words are `<= p - 2^32`
     (all constants of the tables are: `round_constants_small`), yields valid raw words and denotes
     the reference round on residues (S-box `x^7`, matrix-vector product with the `MDS` table,
-    constants, `x^INV_ALPHA`, MDS, constants).  PARTIAL: under the plumbing hypothesis
-    `mds_multiply_glue`, which is not proved in Lean and is covered by the correspondence only. -/
-theorem round_rp64_denotes_reference_partial (hglue : mds_multiply_glue)
+    constants, `x^INV_ALPHA`, MDS, constants). -/
+theorem round_rp64_denotes_reference
     (x0 x1 x2 x3 x4 x5 x6 x7 x8 x9 x10 x11 a0 a1 a2 a3 a4 a5 a6 a7 a8 a9 a10 a11 b0 b1 b2 b3 b4 b5 b6 b7 b8 b9 b10 b11 : Nat) (hx0 : F64Z.Inv x0) (hx1 : F64Z.Inv x1) (hx2 : F64Z.Inv x2) (hx3 : F64Z.Inv x3) (hx4 : F64Z.Inv x4) (hx5 : F64Z.Inv x5) (hx6 : F64Z.Inv x6) (hx7 : F64Z.Inv x7) (hx8 : F64Z.Inv x8) (hx9 : F64Z.Inv x9) (hx10 : F64Z.Inv x10) (hx11 : F64Z.Inv x11)
     (ha0 : a0 ≤ 18446744065119617025) (ha1 : a1 ≤ 18446744065119617025) (ha2 : a2 ≤ 18446744065119617025) (ha3 : a3 ≤ 18446744065119617025) (ha4 : a4 ≤ 18446744065119617025) (ha5 : a5 ≤ 18446744065119617025) (ha6 : a6 ≤ 18446744065119617025) (ha7 : a7 ≤ 18446744065119617025) (ha8 : a8 ≤ 18446744065119617025) (ha9 : a9 ≤ 18446744065119617025) (ha10 : a10 ≤ 18446744065119617025) (ha11 : a11 ≤ 18446744065119617025)
     (hb0 : b0 ≤ 18446744065119617025) (hb1 : b1 ≤ 18446744065119617025) (hb2 : b2 ≤ 18446744065119617025) (hb3 : b3 ≤ 18446744065119617025) (hb4 : b4 ≤ 18446744065119617025) (hb5 : b5 ≤ 18446744065119617025) (hb6 : b6 ≤ 18446744065119617025) (hb7 : b7 ≤ 18446744065119617025) (hb8 : b8 ≤ 18446744065119617025) (hb9 : b9 ≤ 18446744065119617025) (hb10 : b10 ≤ 18446744065119617025) (hb11 : b11 ≤ 18446744065119617025) :
     (∀ e ∈ roundWith rp64 [x0, x1, x2, x3, x4, x5, x6, x7, x8, x9, x10, x11] [a0, a1, a2, a3, a4, a5, a6, a7, a8, a9, a10, a11] [b0, b1, b2, b3, b4, b5, b6, b7, b8, b9, b10, b11], F64Z.Inv e) ∧
     (roundWith rp64 [x0, x1, x2, x3, x4, x5, x6, x7, x8, x9, x10, x11] [a0, a1, a2, a3, a4, a5, a6, a7, a8, a9, a10, a11] [b0, b1, b2, b3, b4, b5, b6, b7, b8, b9, b10, b11]).map F64Z.val
       = Round12.refRound ([x0, x1, x2, x3, x4, x5, x6, x7, x8, x9, x10, x11].map F64Z.val) ([a0, a1, a2, a3, a4, a5, a6, a7, a8, a9, a10, a11].map F64Z.val) ([b0, b1, b2, b3, b4, b5, b6, b7, b8, b9, b10, b11].map F64Z.val) :=
-  Round12.round_spec hglue.1 x0 x1 x2 x3 x4 x5 x6 x7 x8 x9 x10 x11 a0 a1 a2 a3 a4 a5 a6 a7 a8 a9 a10 a11 b0 b1 b2 b3 b4 b5 b6 b7 b8 b9 b10 b11 hx0 hx1 hx2 hx3 hx4 hx5 hx6 hx7 hx8 hx9 hx10 hx11 ha0 ha1 ha2 ha3 ha4 ha5 ha6 ha7 ha8 ha9 ha10 ha11 hb0 hb1 hb2 hb3 hb4 hb5 hb6 hb7 hb8 hb9 hb10 hb11
+  Round12.round_spec x0 x1 x2 x3 x4 x5 x6 x7 x8 x9 x10 x11 a0 a1 a2 a3 a4 a5 a6 a7 a8 a9 a10 a11 b0 b1 b2 b3 b4 b5 b6 b7 b8 b9 b10 b11 hx0 hx1 hx2 hx3 hx4 hx5 hx6 hx7 hx8 hx9 hx10 hx11 ha0 ha1 ha2 ha3 ha4 ha5 ha6 ha7 ha8 ha9 ha10 ha11 hb0 hb1 hb2 hb3 hb4 hb5 hb6 hb7 hb8 hb9 hb10 hb11
 
 /-- RpJive64_256: one round on valid raw words, with round constants whose raw words are `<= p - 2^32`
     (all constants of the tables are: `round_constants_small`), yields valid raw words and denotes
     the reference round on residues (S-box `x^7`, matrix-vector product with the `MDS` table,
-    constants, `x^INV_ALPHA`, MDS, constants).  PARTIAL: under the plumbing hypothesis
-    `mds_multiply_glue`, which is not proved in Lean and is covered by the correspondence only. -/
-theorem round_rpjive_denotes_reference_partial (hglue : mds_multiply_glue)
+    constants, `x^INV_ALPHA`, MDS, constants). -/
+theorem round_rpjive_denotes_reference
     (x0 x1 x2 x3 x4 x5 x6 x7 a0 a1 a2 a3 a4 a5 a6 a7 b0 b1 b2 b3 b4 b5 b6 b7 : Nat) (hx0 : F64Z.Inv x0) (hx1 : F64Z.Inv x1) (hx2 : F64Z.Inv x2) (hx3 : F64Z.Inv x3) (hx4 : F64Z.Inv x4) (hx5 : F64Z.Inv x5) (hx6 : F64Z.Inv x6) (hx7 : F64Z.Inv x7)
     (ha0 : a0 ≤ 18446744065119617025) (ha1 : a1 ≤ 18446744065119617025) (ha2 : a2 ≤ 18446744065119617025) (ha3 : a3 ≤ 18446744065119617025) (ha4 : a4 ≤ 18446744065119617025) (ha5 : a5 ≤ 18446744065119617025) (ha6 : a6 ≤ 18446744065119617025) (ha7 : a7 ≤ 18446744065119617025)
     (hb0 : b0 ≤ 18446744065119617025) (hb1 : b1 ≤ 18446744065119617025) (hb2 : b2 ≤ 18446744065119617025) (hb3 : b3 ≤ 18446744065119617025) (hb4 : b4 ≤ 18446744065119617025) (hb5 : b5 ≤ 18446744065119617025) (hb6 : b6 ≤ 18446744065119617025) (hb7 : b7 ≤ 18446744065119617025) :
     (∀ e ∈ roundWith rpjive [x0, x1, x2, x3, x4, x5, x6, x7] [a0, a1, a2, a3, a4, a5, a6, a7] [b0, b1, b2, b3, b4, b5, b6, b7], F64Z.Inv e) ∧
     (roundWith rpjive [x0, x1, x2, x3, x4, x5, x6, x7] [a0, a1, a2, a3, a4, a5, a6, a7] [b0, b1, b2, b3, b4, b5, b6, b7]).map F64Z.val
       = Round8.refRound ([x0, x1, x2, x3, x4, x5, x6, x7].map F64Z.val) ([a0, a1, a2, a3, a4, a5, a6, a7].map F64Z.val) ([b0, b1, b2, b3, b4, b5, b6, b7].map F64Z.val) :=
-  Round8.round_spec hglue.2 x0 x1 x2 x3 x4 x5 x6 x7 a0 a1 a2 a3 a4 a5 a6 a7 b0 b1 b2 b3 b4 b5 b6 b7 hx0 hx1 hx2 hx3 hx4 hx5 hx6 hx7 ha0 ha1 ha2 ha3 ha4 ha5 ha6 ha7 hb0 hb1 hb2 hb3 hb4 hb5 hb6 hb7
+  Round8.round_spec x0 x1 x2 x3 x4 x5 x6 x7 a0 a1 a2 a3 a4 a5 a6 a7 b0 b1 b2 b3 b4 b5 b6 b7 hx0 hx1 hx2 hx3 hx4 hx5 hx6 hx7 ha0 ha1 ha2 ha3 ha4 ha5 ha6 ha7 hb0 hb1 hb2 hb3 hb4 hb5 hb6 hb7
 
 -- the hypotheses are satisfiable by non-trivial states: e.g. zero and the largest canonical word,
 -- and constants at the bound
 example : F64Z.Inv 0 ∧ F64Z.Inv 18446744069414584320 ∧ (18446744065119617025 : Nat) ≤ 18446744065119617025 := by
   unfold F64Z.Inv; decide
 
-/-- FULL statement of (1)+(2) composed, NOT proved as such: `apply_permutation` on raw words denotes
-    seven reference rounds with the table constants.  What is proved: each round
-    (`round_*_denotes_reference_partial`, under `mds_multiply_glue`) and that every table constant
-    meets the bound (`round_constants_small`); the induction over the seven rounds with the actual
-    table rows is not carried out.  The 62-bit instance (plain matrix product) is not covered. -/
-def permutation_denotes_reference : Prop :=
-  ∀ st : List Nat, st.length = 12 → (∀ e ∈ st, F64Z.Inv e) →
-    (∀ e ∈ applyPermutation rp64 st, F64Z.Inv e) ∧
-    (applyPermutation rp64 st).map F64Z.val =
-      (List.zip rp64.ark1 rp64.ark2).foldl
-        (fun v k => Round12.refRound v (k.1.map F64Z.val) (k.2.map F64Z.val)) (st.map F64Z.val)
+/-- Rp62_248: one round on valid raw words (`< 2p`) with valid constants denotes the reference
+    round (cube, plain matrix-vector product with the `MDS` table, constants, `x^INV_ALPHA`, ...) -/
+theorem round_rp62_denotes_reference (st k1 k2 : List Nat)
+    (hs : Sem.AllInv Round62.S62 st) (h1 : Sem.AllInv Round62.S62 k1) (h2 : Sem.AllInv Round62.S62 k2) :
+    Sem.AllInv Round62.S62 (roundWith rp62 st k1 k2) ∧
+    (roundWith rp62 st k1 k2).map F62Z.val
+      = Round62.refRound (st.map F62Z.val) (k1.map F62Z.val) (k2.map F62Z.val) :=
+  Round62.round_sem st k1 k2 hs h1 h2
+
+/-- `apply_permutation` of Rp64_256 on twelve valid raw words: twelve valid raw words that denote
+    the seven reference rounds with the constants of the `ARK1` / `ARK2` tables -/
+theorem permutation_rp64_denotes_reference (st : List Nat) (hl : st.length = 12)
+    (hs : ∀ e ∈ st, F64Z.Inv e) :
+    (applyPermutation rp64 st).length = 12 ∧ (∀ e ∈ applyPermutation rp64 st, F64Z.Inv e) ∧
+    (applyPermutation rp64 st).map F64Z.val = Round12.refPerm (st.map F64Z.val) :=
+  Round12.perm_sem st hl hs
+
+theorem permutation_rpjive_denotes_reference (st : List Nat) (hl : st.length = 8)
+    (hs : ∀ e ∈ st, F64Z.Inv e) :
+    (applyPermutation rpjive st).length = 8 ∧ (∀ e ∈ applyPermutation rpjive st, F64Z.Inv e) ∧
+    (applyPermutation rpjive st).map F64Z.val = Round8.refPerm (st.map F64Z.val) :=
+  Round8.perm_sem st hl hs
+
+theorem permutation_rp62_denotes_reference (st : List Nat) (hl : st.length = 12)
+    (hs : ∀ e ∈ st, F62Z.Inv e) :
+    (applyPermutation rp62 st).length = 12 ∧ (∀ e ∈ applyPermutation rp62 st, F62Z.Inv e) ∧
+    (applyPermutation rp62 st).map F62Z.val = Round62.refPerm (st.map F62Z.val) :=
+  Round62.perm_sem st hl hs
+
+/-- the constants the 62-bit reference permutation adds are the table entries, as residues -/
+theorem rp62_reference_constants :
+    rp62.ark1.map (fun r => r.map F62Z.val) = Gen.Rp62.ARK1.map (fun r => r.map (fun (k : Nat) => (k : ZMod F62Z.P))) ∧
+    rp62.ark2.map (fun r => r.map F62Z.val) = Gen.Rp62.ARK2.map (fun r => r.map (fun (k : Nat) => (k : ZMod F62Z.P))) :=
+  Round62.ark_val
+
+-- a non-trivial state: the sponge's initial state for an 8-element input
+example : [8, 0, 0, 0, 0, 0, 0, 0, 0, 0, 0, 0].length = 12 ∧ ∀ e ∈ [8, 0, 0, 0, 0, 0, 0, 0, 0, 0, 0, 0], F64Z.Inv e := by
+  unfold F64Z.Inv; decide
 
 /-! ## (3) Sponge -/
 
